@@ -22,12 +22,15 @@ from . import common  # noqa: F401  (sets sys.path)
 from labella.scale import LinearScale
 
 SCOPE = ("points: all ordered pairs a != b of 19 (quick) / 27 (thorough) signed values (0, 1e-6 .. 1e9) as domains x 12 ranges "
-         "(either order, tiny/huge/offset) x 15 probe points (ends, interior, outside, far outside), unclamped and clamped; "
+         "(either order, tiny/huge/offset) x up to 15 probe points (ends, interior, one ulp inside/outside, outside, far outside; |x| in {0} u [1e-6,1e9]), unclamped and clamped; "
          "histories: ALL call sequences of length <= 3 (quick) / <= 4 (thorough) over the alphabet {domain x3, range x2, "
          "clamp(True), clamp(False), nice(), nice(3), copy()} x every live receiver, from a scale with a non-round domain; "
          "then seeded random points and random histories of length <= 12 until the time budget")
 
 REL = 1e-9
+# id of the listed known finding (if any) for clamped outputs that leave the range by no more than float rounding
+# (r0*(1-t) + r1*t evaluated in floats can exceed an end of the range by an ulp for t in (0,1), clamped or not)
+ROUNDING_FINDING = None
 
 VALS_QUICK = [1e-6, 0.001, 0.3, 1.0, 7.0, 100.0, 12345.678, 1e6, 1e9]
 VALS_THOROUGH = VALS_QUICK + [2.5e-6, 0.5, 3.0, 999.999]
@@ -39,13 +42,18 @@ def signed(vals):
     return [0.0] + [s * v for v in vals for s in (1, -1)]
 
 
+def x_ok(x):
+    """The quantifier's x: finite, magnitude 0 or 1e-6..1e9."""
+    return x == 0 or 1e-6 <= abs(x) <= 1e9
+
+
 def probes(a, b):
     lo, hi = min(a, b), max(a, b)
     span = hi - lo
     pts = [a, b, lo + span / 2, lo + span / 3, lo + span * 0.9, math.nextafter(lo, math.inf), math.nextafter(hi, -math.inf),
            math.nextafter(lo, -math.inf), math.nextafter(hi, math.inf), lo - span / 4, hi + span / 4, lo - 3 * span, hi + 10 * span,
            0.0, 1e9 if hi < 1e9 else -1e9]
-    return [p for p in pts if math.isfinite(p)]
+    return [p for p in pts if x_ok(p)]
 
 
 # ----------------------------------------------------------------------------
@@ -144,7 +152,11 @@ def check_points(run, a, b, r0, r1, xs, tag="C12", inp_extra=None):
     lo, hi = min(a, b), max(a, b)
     for x, y, cy in zip(xs, ys, cs):
         if not (isinstance(cy, (int, float)) and rlo <= cy <= rhi):
-            run.violation(tag + ".clamp.range", inp, {"x": x, "clamped": cy, "range": [r0, r1]})
+            out_by = (rlo - cy) if cy < rlo else (cy - rhi)
+            small = isinstance(cy, (int, float)) and out_by <= REL * float(A.rmag)
+            run.violation(tag + (".clamp.range.rounding" if small else ".clamp.range"), inp,
+                          {"x": x, "clamped": cy, "range": [r0, r1], "outside_by": out_by, "inside_domain": lo <= x <= hi},
+                          known=ROUNDING_FINDING if small else None)
             break
         if lo <= x <= hi and cy != y:
             run.violation(tag + ".clamp.inside", inp, {"x": x, "clamped": cy, "unclamped": y})
@@ -188,7 +200,7 @@ def probe_points(d):
     a, b = d[0], d[-1]
     lo, hi = min(a, b), max(a, b)
     span = hi - lo
-    return [a, b, lo + span * 0.25, lo + span * 0.75, lo - span * 0.5, hi + span * 2, 0.0, 1.0, -1000.0, 31.7]
+    return [x for x in [a, b, lo + span * 0.25, lo + span * 0.75, lo - span * 0.5, hi + span * 2, 0.0, 1.0, -1000.0, 31.7] if x_ok(x)]
 
 
 FIXED_PROBES = [0.0, 1.0, -1000.0, 31.7, 0.5, 2e-6, 640.0]
@@ -228,8 +240,12 @@ def check_live(run, s, inp, idx):
             run.violation("C12.history.affine", inp, dict(obs, x=x, got=y))
             return
         if cl and not (rlo <= y <= rhi):
-            run.violation("C12.history.clamp_range", inp, dict(obs, x=x, got=y))
-            return
+            out_by = (rlo - y) if y < rlo else (y - rhi)
+            small = out_by <= REL * float(A.rmag)
+            run.violation("C12.history.clamp_range.rounding" if small else "C12.history.clamp_range", inp,
+                          dict(obs, x=x, got=y, outside_by=out_by, inside_domain=inside), known=ROUNDING_FINDING if small else None)
+            if not small:
+                return
         if (inside or not cl) and abs(Fr(y) - A.y(x)) > A.ytol(x):
             # (a scale that reports clamp() False must not clamp: it is the affine map beyond the domain too)
             run.violation("C12.history.affine", inp, dict(obs, x=x, got=y, expected=float(A.y(x))))
@@ -344,7 +360,6 @@ def rand_history(rng):
         recv = rng.randrange(size)
         r = rng.random()
         if r < 0.22:
-            # nice() belongs to the tick properties: its domains have a span of at least 1e-6 of the magnitude (C13/C14)
             calls.append([recv, "domain", rand_pair(rng, close=0.1)])
         elif r < 0.4:
             rg = rand_pair(rng)
@@ -391,12 +406,12 @@ def body(run):
             run.note("point grid cut at a=%r by the time budget" % a)
             break
     if complete:
-        run.exhaustive("points: %d ordered domain pairs x %d ranges x 15 probes, clamped and unclamped" % (npairs, len(RANGES)))
+        run.exhaustive("points: %d ordered domain pairs x %d ranges x <=15 probes, clamped and unclamped" % (npairs, len(RANGES)))
     while run.left() > 0:
         for _ in range(40):
             a, b = rand_pair(run.rng)
             r0, r1 = rand_pair(run.rng)
-            xs = [a, b] + [rand_x(run.rng, a, b) for _ in range(8)]
+            xs = [a, b] + [x for x in (rand_x(run.rng, a, b) for _ in range(8)) if x_ok(x)]
             one_points(run, a, b, r0, r1, xs)
         for _ in range(40):
             start, calls = rand_history(run.rng)
